@@ -13,6 +13,7 @@ ASSUME = [
     "Kani checks overflow as the dev/test profile does (overflow-checks on); a wrapped value in release is a C10 matter",
     "arbitrary source TEXT is outside the claim: a 2-byte symbolic input through the real lexer does not leave symbolic execution (DESIGN C12)",
     "stubs as in C10 / C06",
+    "bounds (E3b): only branch conditions on the argument count are interpreted, every other branch is free; accesses with a non-constant index and sub-slicing (args[1..]) are not interpreted; scope = functions carrying a steel_derive function/native/native_mut/context attribute with a name",
 ]
 KF_RESIDUE = "sym:rollback-keeps-definition-in-recycled-slot"
 
@@ -35,9 +36,104 @@ def plan(tier):
     return q + (t if tier == "thorough" else [])
 
 
+def bounds_obligations(run):
+    """E3b: accesses to the argument vector stay in bounds for every argument count, for every
+    built-in procedure registered through the steel_derive attributes (MIR -> SMT)."""
+    import os, json, shutil, subprocess, re, time
+    import ws, mir, p_bounds
+    t0 = time.time()
+    try:
+        wsdir = ws.prepare("c07mir", [])
+        root = os.path.dirname(wsdir)
+        reg = p_bounds.registered(os.path.join(wsdir, "crates", "steel-core", "src"))
+        out = os.path.join(root, "steel_core.mir")
+        env = dict(os.environ, CARGO_NET_OFFLINE="true")
+        env.pop("RUSTFLAGS", None)
+        with open(out, "w") as f, open(os.path.join(root, "mir.err"), "w") as e:
+            subprocess.run(["cargo", "+nightly", "rustc", "--offline", "-p", "steel-core", "--lib", "--no-default-features",
+                            "--features", ws.FEATURES, "--target-dir", os.path.join(root, "tmir"), "--",
+                            "-Zunpretty=mir", "-C", "debug-assertions=off"], cwd=wsdir, stdout=f, stderr=e, env=env)
+        names = set(reg)
+        funcs = mir.parse(open(out).read(), lambda n: n.split("::")[-1] in names)
+    except Exception as ex:
+        run.ob("bounds:mir-dump", "inconclusive", reason=str(ex)[-500:], engine="mir-smt")
+        return
+    res, errs, solver_s = {"unsat": 0, "none": 0, "skip": 0}, [], 0.0
+    bad = []
+    unint = 0
+    for key, f in funcs.items():
+        try:
+            r = p_bounds.check_fn(key, f)
+        except Exception as ex:
+            errs.append("%s: %s" % (f.name[-50:], str(ex)[:120]))
+            continue
+        solver_s += r.get("dt", 0)
+        unint += r.get("uninterpreted", 0) or 0
+        if r["res"] == "sat":
+            bad.append((f, r))
+        elif r["res"] in res:
+            res[r["res"]] += 1
+        else:
+            errs.append("%s: solver %s" % (f.name[-50:], r["res"]))
+    n_checked = res["unsat"] + len(bad)
+    run.functions.append("%d built-in procedures registered through steel_derive attributes: bounds checks on the argument vector (MIR)" % n_checked)
+    run.samples.append({"engine": "mir-smt", "query": "exists argument count reaching `index out of bounds` on args[i] with i >= count",
+                        "functions_with_constant-index_accesses": n_checked, "unsat": res["unsat"], "without such accesses": res["none"],
+                        "accesses with a non-constant index (not interpreted)": unint})
+    common = dict(engine="mir-smt/z3", wall_s=time.time() - t0, solver_s=round(solver_s, 2), solver_checks=n_checked)
+    if n_checked < 100:
+        run.ob("bounds:argument-vector", "inconclusive", reason="only %d registered procedures with argument-vector accesses recognised" % n_checked, **common)
+        return
+    if errs:
+        run.ob("bounds:argument-vector", "inconclusive", reason="; ".join(errs[:3]), **common)
+        return
+    if not bad:
+        run.ob("bounds:argument-vector", "pass", nonvacuous=True, note="%d procedures: no argument count reaches an out-of-bounds access" % res["unsat"], **common)
+        return
+    f, r = bad[0]
+    kind, script_name, src = reg[f.name.split("::")[-1]]
+    try:
+        shutil.copy(os.path.join(ws.VERIF, "harness", "arity_replay.rs"), os.path.join(wsdir, "crates", "steel-core", "tests", "verif_arity_replay.rs"))
+        p = subprocess.run(["cargo", "test", "--offline", "-p", "steel-core", "--no-default-features", "--features", ws.FEATURES,
+                            "--test", "verif_arity_replay", "--target-dir", os.path.join(root, "tn"), "--", "bounds_replay", "--exact", "--nocapture"],
+                           cwd=wsdir, env=dict(env, VERIF_BOUNDS_NAME=script_name, VERIF_BOUNDS_LEN=str(r["len"])), capture_output=True, text=True, timeout=1800)
+        m = re.search(r"OBSERVED: (.*)", p.stdout + p.stderr)
+    except Exception as ex:
+        run.ob("bounds:argument-vector", "inconclusive", reason="replay failed: %s" % str(ex)[-300:], **common)
+        return
+    if not m:
+        run.ob("bounds:argument-vector", "inconclusive", reason="solver: %d arguments reach an out-of-bounds access in %s (`%s`, %d procedures in all), not reproduced through a script call" % (r["len"], f.name[-60:], script_name, len(bad)), **common)
+        return
+    d = os.path.join(ws.VERIF, "replays", run.pid)
+    os.makedirs(d, exist_ok=True)
+    path = os.path.join(d, "bounds.json")
+    json.dump({"property": run.pid, "kind": "bounds", "function": f.name, "script_name": script_name, "len": r["len"], "observed": m.group(1),
+               "others": [b[0].name for b in bad[1:6]], "how": "./check C07 --replay <this file>"}, open(path, "w"), indent=1)
+    run.violation("bounds:%s" % script_name, "%s: %s" % (script_name, m.group(1)[:300]), path)
+    run.ob("bounds:argument-vector", "fail", note=m.group(1)[:200], **common)
+
+
 def check(pid, tier, seed):
-    return p_kani.check(pid, tier, seed, SPECS, plan(tier), FUNCS, {"operands": "full 64-bit", "names": 3}, ASSUME, RULE, slots=3)
+    run = p_kani.check(pid, tier, seed, SPECS, plan(tier), FUNCS, {"operands": "full 64-bit", "names": 3, "argument count": "64-bit"}, ASSUME, RULE, slots=3)
+    bounds_obligations(run)
+    return run
 
 
 def replay(pid, path):
+    import json
+    payload = json.load(open(path))
+    if payload.get("kind") == "bounds":
+        import os, shutil, subprocess, re, ws
+        wsdir = ws.prepare("c07replay", [])
+        root = os.path.dirname(wsdir)
+        shutil.copy(os.path.join(ws.VERIF, "harness", "arity_replay.rs"), os.path.join(wsdir, "crates", "steel-core", "tests", "verif_arity_replay.rs"))
+        p = subprocess.run(["cargo", "test", "--offline", "-p", "steel-core", "--no-default-features", "--features", ws.FEATURES,
+                            "--test", "verif_arity_replay", "--target-dir", os.path.join(root, "tn"), "--", "bounds_replay", "--exact", "--nocapture"],
+                           cwd=wsdir, env=dict(os.environ, VERIF_BOUNDS_NAME=payload["script_name"], VERIF_BOUNDS_LEN=str(payload["len"])), capture_output=True, text=True)
+        m = re.search(r"OBSERVED: (.*)", p.stdout + p.stderr)
+        print("observed:", m.group(1) if m else "not reproduced")
+        if m:
+            print("VIOLATION property=%s replay=%s" % (pid, path))
+            return 1
+        return 0
     return p_kani.replay(pid, path)
